@@ -217,7 +217,10 @@ def setitem_array_expr(out_name, array, indices, value):
                 else:
                     block_index_size = None
                     n_preceding = None
-                    dim_1d_int_index = dim
+                    # Position among the non-integer indices: that is how the
+                    # per-dimension lists below (and ``offset``) are numbered.
+                    dim_1d_int_index = len(block_indices_shape)
+                    index_1d_int = index
                     loc0_loc1 = loc0, loc1
 
                 if not is_dask_collection(index) and not block_index.size:
@@ -241,7 +244,7 @@ def setitem_array_expr(out_name, array, indices, value):
             j = i + offset
             if j == dim_1d_int_index:
                 value_indices[i] = value_indices_from_1d_int_index(
-                    indices[j], value_shape[i + value_offset], *loc0_loc1
+                    index_1d_int, value_shape[i + value_offset], *loc0_loc1
                 )
             else:
                 start = block_preceding_sizes[j]
